@@ -86,6 +86,9 @@ def thorough(ck):
             if meta.get("declined"):
                 res.setdefault("seeded_declined", []).append(name)      # breaks a clause the check declares it does not decide
                 continue
+            if meta.get("known_miss"):
+                res.setdefault("seeded_known_miss", []).append(name)    # confirmed change the check is known not to report (DESIGN 10.6): listed, not decisive
+                continue
             jobs.append(("seeded", name, patch))
     for name, patch, meta in corpus("benign"):
         jobs.append(("benign", name, patch))
@@ -107,7 +110,7 @@ def thorough(ck):
             else:
                 res["benign_silent"].append(name)
     clear_caches()
-    ck.extra["self_validation"] = {k: (v if k.endswith(("missed", "alarm", "skipped", "declined")) else len(v)) for k, v in res.items()}
+    ck.extra["self_validation"] = {k: (v if k.endswith(("missed", "alarm", "skipped", "declined", "known_miss")) else len(v)) for k, v in res.items()}
     ck.extra["self_validation"]["seeded_reported_detail"] = res["seeded_reported"]
     from .pinned import PINNED_DIGEST
     on_pinned = ck.prog.digest == PINNED_DIGEST
